@@ -49,23 +49,29 @@ fn sfnt_tables() {
 #[kani::proof]
 #[kani::unwind(5)]
 fn ttc_member() {
-    // collection header (12 bytes) + 2 offsets + two minimal offset tables (12 bytes each, zero tables) = 44 bytes
-    let mut f = [0u8; 44];
+    // collection header (12 bytes) + 2 offsets + version 2 signature fields (12 bytes: ulDsigTag, ulDsigLength, ulDsigOffset; all null
+    // when the collection is unsigned) + two minimal offset tables (12 bytes each, zero tables) = 56 bytes; version 1 files simply
+    // do not use the three signature words
+    let mut f = [0u8; 56];
     put32(&mut f, 0, 0x74746366); // 'ttcf'
-    f[5] = 1; // major version 1
+    let major: u8 = kani::any();
+    kani::assume(major == 1 || major == 2);
+    f[5] = major;
     put32(&mut f, 8, 2);
     let offs: [u32; 2] = kani::any();
     put32(&mut f, 12, offs[0]);
     put32(&mut f, 16, offs[1]);
-    put32(&mut f, 20, 0x00010000);
-    put32(&mut f, 32, 0x4F54544F); // 'OTTO'
+    let signed: bool = kani::any();
+    if major == 2 && signed { put32(&mut f, 20, 0x44534947); put32(&mut f, 24, kani::any()); put32(&mut f, 28, kani::any()); } // 'DSIG', length, offset
+    put32(&mut f, 32, 0x00010000);
+    put32(&mut f, 44, 0x4F54544F); // 'OTTO'
     let font = ReadScope::new(&f).read::<OpenTypeFont<'_>>().unwrap();
     let index: usize = kani::any();
     match font.offset_table(index) {
         Ok(t) => {
             assert!(index < 2, "a member index beyond the end of the collection is an error");
             let off = offs[index] as usize;
-            assert!(off <= 44 - 12);
+            assert!(off <= 56 - 12);
             let magic = ((f[off] as u32) << 24) | ((f[off + 1] as u32) << 16) | ((f[off + 2] as u32) << 8) | f[off + 3] as u32;
             assert!(t.sfnt_version == magic, "the offset table is the one stored at offsets[index]");
         }
